@@ -55,8 +55,7 @@ TRUSTED = ["Model/RunInfoCodec.v, Model/FSStore.v mirror _run_info.py / _load.py
            "path abstraction FSStore.path <-> real relative file names is tied by the observed folder listing"]
 
 STORAGES = ["file_array", "dict", "shared_memory_dict"]
-CHILD_BATCH = 40
-CHILD_PAR = 8
+WORKERS = 8
 
 
 # ------------------------------------------------------------------ Coq literals
@@ -176,7 +175,7 @@ def _parent_run(c, folder):
 
 
 def _decode(o):
-    """JSON from the reload helper -> python observation with coqlit.Err markers."""
+    """JSON from a worker -> python observation with coqlit.Err markers."""
     if isinstance(o, dict) and "__err__" in o:
         e = Err(o["__err__"])
         e.detail = o.get("detail", "")
@@ -186,7 +185,15 @@ def _decode(o):
     return o
 
 
-def _wait_no_managers(timeout=20.0):
+def _encode(o):
+    if isinstance(o, Err):
+        return {"__err__": o.name if o.name != "OtherError" else (o.detail.split(":")[0] or "OtherError"), "detail": o.detail}
+    if isinstance(o, list):
+        return [_encode(x) for x in o]
+    return o
+
+
+def _wait_no_managers(timeout=30.0):
     t0 = time.time()
     while multiprocessing.active_children() and time.time() - t0 < timeout:
         gc.collect()
@@ -194,52 +201,77 @@ def _wait_no_managers(timeout=20.0):
     return not multiprocessing.active_children()
 
 
-def _spawn_child(folders):
+def worker_run(items):
+    """Inside a worker interpreter: run every (case, folder); reload twice in this same interpreter unless the case asks
+    for a fresh one.  Returns JSON-able [{"head":..., "tail":...}] and whether all manager processes are gone at the end."""
+    out = []
+    for c, folder in items:
+        head, keep = _parent_run(c, folder)
+        tail = None
+        if not isinstance(head, Err) and not c.get("fresh"):
+            with contextlib.redirect_stdout(io.StringIO()):
+                tail = c04_reload.two_loads(folder, _out_names(c))   # results (and their managers) still alive
+        out.append({"head": _encode(head), "tail": tail})
+        del keep
+    gc.collect()
+    return out, _wait_no_managers()
+
+
+def _spawn(doc, n):
     env = dict(os.environ)
     env["PYTHONPATH"] = f"{common.REPO}:{common.VERIF}"
+    env["VERIF_REPO"] = str(common.REPO)
     env["PYTHONHASHSEED"] = "0"
     env["PYTHONDONTWRITEBYTECODE"] = "1"
     try:
-        p = subprocess.run(["/venv/bin/python", "-m", "harness.props.c04_child"], input=json.dumps({"folders": folders}),
-                           capture_output=True, text=True, timeout=900, env=env, cwd=str(common.VERIF))
+        p = subprocess.run(["/venv/bin/python", "-m", "harness.props.c04_child"], input=json.dumps(doc),
+                           capture_output=True, text=True, timeout=1500, env=env, cwd=str(common.VERIF))
     except subprocess.TimeoutExpired:
-        return [Err("Timeout")] * len(folders)
+        return None
     if p.returncode != 0:
-        raise common.Infra(f"C04 child interpreter failed (rc={p.returncode}):\n{p.stderr[-2000:]}")
-    doc = json.loads(p.stdout)
-    if not Path(doc["pipefunc"]).resolve().is_relative_to(Path(common.REPO).resolve()):
-        raise common.Infra(f"C04 child imported pipefunc from {doc['pipefunc']}")
-    return doc["results"]
+        raise common.Infra(f"C04 worker interpreter failed (rc={p.returncode}):\n{p.stderr[-2000:]}")
+    res = json.loads(p.stdout)
+    if not Path(res["pipefunc"]).resolve().is_relative_to(Path(common.REPO).resolve()):
+        raise common.Infra(f"C04 worker imported pipefunc from {res['pipefunc']}")
+    assert len(res["results"]) == n
+    return res
+
+
+def _shards(items, k):
+    k = max(1, min(k, len(items)))
+    return [items[j::k] for j in range(k)]
 
 
 def _run_batch(cases):
-    """Observations for a list of cases; fresh-interpreter reloads are batched into few child processes, which are
-    started only after every run of the batch is finished and no manager process is alive."""
+    """Observations for a list of cases.  Phase 1: worker interpreters run the requests (and do the same-interpreter
+    reloads).  Phase 2, only after every worker has exited (so every manager process of every run is gone): fresh
+    interpreters reload the folders of the cases that ask for it."""
     tmp = tempfile.mkdtemp(prefix="verif_c04_")
     try:
-        heads, tails, fresh = [], [None] * len(cases), []
-        for i, c in enumerate(cases):
-            folder = os.path.join(tmp, f"r{i}")
-            head, keep = _parent_run(c, folder)
-            heads.append(head)
-            if isinstance(head, Err):
+        idx = list(range(len(cases)))
+        heads, tails = [None] * len(cases), [None] * len(cases)
+        shards = _shards(idx, WORKERS if len(cases) >= 4 else 1)
+        with ThreadPoolExecutor(max_workers=WORKERS) as ex:
+            results = list(ex.map(lambda sh: _spawn({"mode": "run", "items": [[cases[i], os.path.join(tmp, f"r{i}")] for i in sh]},
+                                                    len(sh)), shards))
+        for sh, res in zip(shards, results):
+            if res is None:
+                for i in sh:
+                    heads[i] = Err("Timeout")
                 continue
-            if c.get("fresh"):
-                fresh.append((i, folder))
-            else:
-                with contextlib.redirect_stdout(io.StringIO()):
-                    tails[i] = c04_reload.two_loads(folder, _out_names(c))   # results (and their managers) still alive
-            del keep
-        gc.collect()
+            if not res["managers_gone"]:
+                raise common.Infra("C04: manager processes of finished runs were still alive when the worker ended")
+            for i, r in zip(sh, res["results"]):
+                heads[i], tails[i] = _decode(r["head"]), r["tail"]
+        fresh = [i for i in idx if cases[i].get("fresh") and not isinstance(heads[i], Err)]
         if fresh:
-            if not _wait_no_managers():
-                raise common.Infra("C04: manager processes of finished runs are still alive")
-            chunks = [fresh[k:k + CHILD_BATCH] for k in range(0, len(fresh), CHILD_BATCH)]
-            with ThreadPoolExecutor(max_workers=CHILD_PAR) as ex:
-                results = list(ex.map(lambda ch: _spawn_child([[f, _out_names(cases[i])] for i, f in ch]), chunks))
-            for ch, res in zip(chunks, results):
-                for (i, _f), r in zip(ch, res):
-                    tails[i] = r
+            shards = _shards(fresh, WORKERS if len(fresh) >= 4 else 1)
+            with ThreadPoolExecutor(max_workers=WORKERS) as ex:
+                results = list(ex.map(lambda sh: _spawn({"mode": "load", "folders": [[os.path.join(tmp, f"r{i}"), _out_names(cases[i])]
+                                                                                     for i in sh]}, len(sh)), shards))
+            for sh, res in zip(shards, results):
+                for k, i in enumerate(sh):
+                    tails[i] = {"__err__": "Timeout"} if res is None else res["results"][k]
         out = []
         for head, tail in zip(heads, tails):
             if isinstance(head, Err):
@@ -317,6 +349,27 @@ def _gen_storage(rng, c):
     return {"dict": d}
 
 
+def _manager_cost(c):
+    """(# mapped outputs stored in a shared_memory_dict) x (# outputs): proportional to the manager processes one reload starts."""
+    st = c["st"]
+    d = None if "uni" in st else {(tuple(k) if isinstance(k, list) else k): v for k, v in st["dict"]}
+    shared = 0
+    for fd in c["funcs"]:
+        if not (fd.get("spec") and fd["spec"]["i"]):
+            continue
+        key = fd["outs"][0] if len(fd["outs"]) == 1 else tuple(fd["outs"])
+        if d is not None and len(fd["outs"]) == 1 and (key,) in d and key not in d:
+            kind = d[(key,)]
+        else:
+            kind = st["uni"] if d is None else d.get(key, d.get(""))
+        if kind == "shared_memory_dict":
+            shared += len(fd["outs"])
+    return shared * len(_out_names(c))
+
+
+MAX_MANAGER_COST = 6
+
+
 def gen_case(rng):
     while True:
         c = mapgen.gen_request(rng)
@@ -330,13 +383,15 @@ def gen_case(rng):
             continue
         c["xr"] = xr
         c["st"] = _gen_storage(rng, c)
+        while _manager_cost(c) > MAX_MANAGER_COST:      # every load_outputs call starts one manager process per
+            c["st"] = _gen_storage(rng, c)               # shared_memory_dict array: keep those pipelines small
         c["persist"] = rng.random() < 0.9
         c["fresh"] = rng.random() < 0.5
         return c
 
 
 def generate(rng, tier, mult):
-    n = (70 if tier == "quick" else 1500) * mult
+    n = (60 if tier == "quick" else 1500) * mult
     out = [gen_case(rng) for _ in range(n)]
     _PENDING.clear()
     for c in out:
